@@ -355,6 +355,24 @@ pub fn gen_zone(rng: &mut Rng, serial: u32) -> ZoneC {
             _ => {}
         }
     }
+    // name servers shared between delegations: a cut may name a server that lives below a sibling cut
+    // (and has its address records there), so that one cut's glue is found under another
+    let cuts: Vec<Vec<u8>> = z.names().into_iter().filter(|n| z.is_cut(n)).collect();
+    if cuts.len() >= 2 && rng.chance(2, 3) {
+        let servers: Vec<Vec<u8>> = cuts.iter().map(|cn| { let mut t = vec![2, b'n', b's']; t.extend_from_slice(cn); t }).filter(|t| z.get(t, T_A).is_some()).collect();
+        for cn in &cuts {
+            for sv in &servers {
+                if !is_at_or_below(sv, cn) && rng.chance(1, 2) {
+                    let mut ns = z.get(cn, T_NS).unwrap().clone();
+                    if !ns.rdatas.contains(sv) {
+                        ns.rdatas.push(sv.clone());
+                        ns.rdatas.sort();
+                        z.insert(ns);
+                    }
+                }
+            }
+        }
+    }
     z
 }
 
